@@ -54,10 +54,16 @@ def _exec(ns, cfg, steps_iter, props, record, want_drain=True):
     return w, L
 
 
-def run_seed(ns, seed, family, props=None, stop_early=True):
+def run_seed(ns, seed, family, props=None, stop_early=True, override=None):
     rng = random.Random(seed)
     cfg = G.make_config(rng, family)
     cfg["seed"] = seed
+    if override:
+        for k, v in override.items():
+            if isinstance(v, dict) and isinstance(cfg.get(k), dict):
+                cfg[k].update(v)
+            else:
+                cfg[k] = v
     g = G.Gen(rng, cfg)
     res = Result()
     res.seed = seed
